@@ -140,7 +140,14 @@ class GrammarExport:
             ok = []
             for k, v in sorted(self.candidates, key=repr):
                 if isinstance(pat, str) != isinstance(v, str):
-                    continue   # a str regex only has str instances, a bytes regex only bytes
+                    # str and bytes are identified through Latin-1 (as Terminal.check does)
+                    try:
+                        vv = v.decode("latin-1") if isinstance(v, bytes) else v.encode("latin-1")
+                    except Exception:
+                        continue
+                    if pyre.fullmatch(pat, vv):
+                        ok.append(payload_of_value(v))
+                    continue
                 if pyre.fullmatch(pat, v):
                     ok.append(payload_of_value(v))
             tab.append(f"({coq_N(i)}, {coq_list(ok)})")
